@@ -4,7 +4,7 @@ import ast
 from typing import List, Dict, Optional, Tuple
 from ..model import Model, FuncInfo, own_nodes, norm_stmt, AnalysisError, AnchorError, enclosing_stmt, ancestors, has_form, under, path_conditions, case_split
 from ..report import RuleResult
-from ..flow import function_defs, names_loaded
+from ..flow import function_defs, names_loaded, origins
 from ..cfg import CFG, stmt_dominates
 from ..domains.poly import Uninterpretable
 from ..domains import ncalg
@@ -277,12 +277,58 @@ def _take(model: Model, T: RuleResult):
         T.bad(dg, dg.node, "degen_symeig.forward must return torch.linalg.eigh of its argument unchanged")
     # mode normalisation in the public wrapper
     sy = model.func(PUB, "symeig")
-    src = ast.unparse(sy.node)
-    from ..model import has_form
-    if has_form(sy.node, "mode = mode.lower()", "if mode == 'uppermost':\n    mode = 'uppest'"):
-        T.ok(sy.fq, "symeig lower-cases the mode and maps 'uppermost' to the handled spelling 'uppest'")
-    else:
-        T.bad(sy, sy.node, "symeig must lower-case `mode` and map 'uppermost' to 'uppest' before dispatch")
+    _mode_normalisation(model, sy, T)
+
+
+def _mode_normalisation(model: Model, sy: FuncInfo, T: RuleResult):
+    """The statements of symeig that (re)bind `mode` are evaluated abstractly on probe spellings (string constants only; nothing of the
+    repository runs): whatever the spelling - if chain, alias table, conditional expression - 'LOWEST' must arrive as 'lowest' and
+    'uppermost' / 'UpperMost' as 'uppest' at the dispatch."""
+    from ..domains.dictsem import DictInterp, Unsupported, Raised, ADict
+    pmode = "mode" if "mode" in sy.all_params() else None
+    if pmode is None:
+        raise AnchorError("C05-T: symeig no longer has a `mode` parameter")
+
+    def stores_mode(st):
+        return any(isinstance(n, ast.Name) and n.id == pmode and isinstance(n.ctx, ast.Store) for n in ast.walk(st))
+    body = list(sy.node.body)
+    writers = [st for st in body if stores_mode(st)]
+    nested = [n for n in own_nodes(sy.node) if isinstance(n, ast.Name) and n.id == pmode and isinstance(n.ctx, ast.Store)
+              and not any(n in list(ast.walk(w)) for w in writers)]
+    if nested:
+        T.undecided(sy, enclosing_stmt(nested[0]), "cannot identify the normalisation of `mode`: it is re-bound inside a nested block")
+        return
+    # the first read of mode outside the writers must come after the last writer
+    reads = [n for n in own_nodes(sy.node) if isinstance(n, ast.Name) and n.id == pmode and isinstance(n.ctx, ast.Load)
+             and not any(n in list(ast.walk(w)) for w in writers)]
+    first_read = min((n.lineno for n in reads), default=None)
+    if writers and first_read is not None and first_read < max(w.lineno for w in writers):
+        T.bad(sy, writers[-1], "symeig uses `mode` (line %d) before its normalisation is complete" % first_read)
+        return
+    env0 = {}
+    for st in model.module(PUB).tree.body:
+        if isinstance(st, ast.Assign) and len(st.targets) == 1 and isinstance(st.targets[0], ast.Name) and isinstance(st.value, ast.Dict):
+            try:
+                env0[st.targets[0].id] = DictInterp({}).ev(st.value)
+            except (Unsupported, Raised):
+                pass
+    probes = {"lowest": "lowest", "uppest": "uppest", "uppermost": "uppest", "LOWEST": "lowest", "UpperMost": "uppest", "UPPEST": "uppest"}
+    for inp, want in probes.items():
+        it = DictInterp(dict(env0, **{pmode: inp}))
+        try:
+            it.run(writers)
+        except Unsupported as e:
+            T.undecided(sy, writers[0] if writers else sy.node, "cannot interpret the normalisation of `mode` in symeig (%s)" % e)
+            return
+        except Raised as e:
+            T.bad(sy, writers[0], "symeig(mode=%r) raises (%s) instead of dispatching on %r" % (inp, e, want))
+            return
+        got = it.env.get(pmode)
+        if got != want:
+            T.bad(sy, writers[-1] if writers else sy.node, "symeig must lower-case `mode` and map 'uppermost' to 'uppest' before dispatch: mode=%r arrives as %r, the "
+                  "handled spelling is %r (the solver then takes the other end of the spectrum or fails)" % (inp, got, want))
+            return
+    T.ok(sy.fq, "symeig lower-cases the mode and maps 'uppermost' to the handled spelling 'uppest' (%d probe spellings evaluated over %d statement(s))" % (len(probes), len(writers)))
 
 
 # ------------------------------------------------------------------------------------------ C05-Q
@@ -480,15 +526,9 @@ def _davidson(model: Model, D: RuleResult):
         under_m = under(st, "%s is not None" % pM)
         kw = {k.arg: ast.unparse(k.value) for k in c.keywords}
         if under_m:
-            mv = kw.get("MV")
-            d = None
-            for a in ancestors(c):
-                if isinstance(a, ast.If):
-                    for b in (a.body if st in a.body else a.orelse):
-                        if isinstance(b, ast.Assign) and ast.unparse(b.targets[0]) == mv:
-                            d = b.value
-                    break
-            okq = okq and d is not None and has_form(d, "%s.mm(%s)" % (pM, ast.unparse(c.args[0])))
+            mvk = [k.value for k in c.keywords if k.arg == "MV"]
+            ds = origins(mvk[0], function_defs(f.node)) if mvk else []
+            okq = okq and bool(ds) and all(has_form(d, "%s.mm(%s)" % (pM, ast.unparse(c.args[0]))) for d in ds)
         else:
             okq = okq and not kw
     if okq:
